@@ -422,6 +422,9 @@ Definition step (k : kf) (pick : N) (a : action) (st : state) : state :=
     match tget n (tags st) with
     | None => st
     | Some t =>
+      (* UpdateTag rejects a data / tag-referencing query on a tag that keeps converters: nothing is changed *)
+      if complex d && negb (match t_conv t with [] => true | _ => false end) then st
+      else
       if refs_ok n d (tags st) then
         let st1 := set_tags st (inherit (all st) (tset n (mkTag d 0 (all st) (t_conv t)) (tags st))) in
         start_converter (start_tagging pick st1)
